@@ -194,6 +194,209 @@ fn cmd_tokens(args: &[Sx]) -> Result<Sx, String> {
     })
 }
 
+/// `(diag FILTER)` -> how the filter is rejected: the rendered reports and every span they point to
+fn cmd_diag(args: &[Sx]) -> Result<Sx, String> {
+    let code = String::from_utf8(args[0].bytes().ok_or("filter")?.to_vec()).map_err(|_| "utf8")?;
+    match jaq_all::compile_with(&code, jaq_all::defs(), data::funs(), &[]) {
+        Ok(_) => Ok(l(vec![a("accepted")])),
+        Err(frs) => {
+            let mut spans = Vec::new();
+            let mut rendered = 0usize;
+            for fr in &frs {
+                // as jaq's main does: plain and coloured
+                let plain = jaq_all::load::FileReportsDisp::new(fr).to_string();
+                let paint: jaq_all::load::Paint = |f, c, d| match c {
+                    Some(c) => c.ansi(f, d),
+                    None => d.fmt(f),
+                };
+                let colour = jaq_all::load::FileReportsDisp::new(fr).with_paint(paint).to_string();
+                rendered += plain.len() + colour.len();
+                if plain.is_empty() {
+                    return Ok(l(vec![a("empty-report")]));
+                }
+                // the spans are private to the reports; their Debug form shows them as `a..b`
+                let dbg = format!("{:?}", fr.1);
+                let b = dbg.as_bytes();
+                let mut i = 0;
+                while i + 1 < b.len() {
+                    if b[i] == b'.' && b[i + 1] == b'.' {
+                        let mut x = i;
+                        while x > 0 && b[x - 1].is_ascii_digit() {
+                            x -= 1;
+                        }
+                        let mut y = i + 2;
+                        while y < b.len() && b[y].is_ascii_digit() {
+                            y += 1;
+                        }
+                        if x < i && y > i + 2 {
+                            spans.push(l(vec![a(&dbg[x..i]), a(&dbg[i + 2..y])]));
+                        }
+                        i = y;
+                    } else {
+                        i += 1;
+                    }
+                }
+            }
+            let on_boundary = |n: &Sx| {
+                n.atom()
+                    .and_then(|n| n.parse::<usize>().ok())
+                    .map(|n| n <= code.len() && code.is_char_boundary(n))
+            };
+            let all_ok = spans.iter().all(|sp| {
+                let sp = sp.list().unwrap();
+                on_boundary(&sp[0]) == Some(true) && on_boundary(&sp[1]) == Some(true)
+            });
+            Ok(l(vec![
+                a("rejected"),
+                a(&rendered.to_string()),
+                l(spans),
+                a(&code.len().to_string()),
+                a(if all_ok { "inside" } else { "outside" }),
+            ]))
+        }
+    }
+}
+
+/// `(decode FORMAT DOC)` -> number of values and whether an error ended the document, through both
+/// entry points of the format readers (`parse` on bytes, `read` on a reader), plain and slurped;
+/// every decoded value is also written as JSON and displayed.
+fn cmd_decode(args: &[Sx]) -> Result<Sx, String> {
+    use jaq_all::fmts::{read, Format};
+    let fmt = Format::parse(args[0].atom().ok_or("format")?).ok_or("unknown format")?;
+    let doc = args[1].bytes().ok_or("doc")?.to_vec();
+    let bytes = bytes::Bytes::from(doc);
+    let mut res = Vec::new();
+    for slurp in [false, true] {
+        for entry in ["parse", "read"] {
+            let s = match read::bytes_str(fmt, &bytes) {
+                Ok(s) => s.to_string(),
+                Err(_) => {
+                    res.push(l(vec![a(entry), a("not-utf8")]));
+                    continue;
+                }
+            };
+            let vals = match entry {
+                "parse" => read::parse(fmt, &bytes, &s, slurp),
+                _ => read::read(fmt, std::io::Cursor::new(&bytes[..]), &s, slurp),
+            };
+            let mut n = 0usize;
+            let mut err = false;
+            let mut sink = Vec::new();
+            for v in vals.take(10000) {
+                match v {
+                    Ok(v) => {
+                        n += 1;
+                        sink.clear();
+                        let _ = jaq_json::write::write(&mut sink, &Default::default(), 0, &v);
+                        let _ = v.to_string();
+                    }
+                    Err(e) => {
+                        let _ = e.to_string();
+                        err = true;
+                        break;
+                    }
+                }
+            }
+            res.push(l(vec![a(entry), a(&n.to_string()), a(if err { "error" } else { "end" })]));
+        }
+    }
+    Ok(l(vec![a("decoded"), l(res)]))
+}
+
+/// Stand-alone mode `jaqh --sweep`: one command `(FILTER NVARS (POOL...) START MODE [SEED COUNT])` on stdin.
+/// The filter (with global variables `$a0`, `$a1`, ...) is compiled once and run on tuples of pool values
+/// (input, a0, a1, ...); before each tuple its index is printed, so that a hang or an abort is attributed.
+fn sweep() -> Result<(), String> {
+    let mut text = String::new();
+    std::io::Read::read_to_string(&mut std::io::stdin(), &mut text).map_err(|e| e.to_string())?;
+    let cmd = match sexp::parse(text.trim())? {
+        Sx::List(v) => v,
+        _ => return Err("sweep command".into()),
+    };
+    let code = String::from_utf8(cmd[0].bytes().ok_or("filter")?.to_vec()).map_err(|_| "utf8")?;
+    let nvars: usize = cmd[1].atom().ok_or("nvars")?.parse().map_err(|_| "nvars")?;
+    let pool: Vec<Val> = cmd[2].list().ok_or("pool")?.iter().map(val::from_sx).collect::<Result<_, _>>()?;
+    let start: u64 = cmd[3].atom().ok_or("start")?.parse().map_err(|_| "start")?;
+    let mode = cmd[4].atom().ok_or("mode")?;
+    let names: Vec<String> = (0..nvars).map(|i| format!("a{i}")).collect();
+    let out = std::io::stdout();
+    let filter = match compile(&code, &names) {
+        Ok(f) => f,
+        Err(_) => {
+            writeln!(out.lock(), "compile-error").unwrap();
+            return Ok(());
+        }
+    };
+    let p = pool.len() as u64;
+    let total_all = p.pow(1 + nvars as u32);
+    let (total, seed) = match mode {
+        "all" => (total_all, 0u64),
+        _ => (
+            cmd[6].atom().ok_or("count")?.parse().map_err(|_| "count")?,
+            cmd[5].atom().ok_or("seed")?.parse().map_err(|_| "seed")?,
+        ),
+    };
+    let mut lcg = seed;
+    for t in 0..total {
+        let idx = if mode == "all" {
+            t
+        } else {
+            lcg = lcg.wrapping_mul(6364136223846793005).wrapping_add(1442695040888963407);
+            (lcg >> 16) % total_all
+        };
+        if t < start {
+            continue;
+        }
+        let mut digits = Vec::new();
+        let mut x = idx;
+        for _ in 0..=nvars {
+            digits.push((x % p) as usize);
+            x /= p;
+        }
+        {
+            let mut o = out.lock();
+            writeln!(o, "t {t} {}", digits.iter().map(|d| d.to_string()).collect::<Vec<_>>().join(" ")).unwrap();
+            o.flush().unwrap();
+        }
+        let input = pool[digits[0]].clone();
+        let vals: Vec<Val> = digits[1..].iter().map(|d| pool[*d].clone()).collect();
+        let r = catch_unwind(AssertUnwindSafe(|| {
+            let inputs: Box<dyn Iterator<Item = Result<Val, String>>> = Box::new(core::iter::empty());
+            let runner = Runner::default();
+            let rc = RcIter::new(inputs);
+            let data = Data { runner: &runner, lut: &filter.lut, inputs: &rc };
+            let ctx = Ctx::<DataKind>::new(&data, Vars::new(vals));
+            let mut n = 0;
+            for y in filter.id.run((ctx, input)).take(6) {
+                n += 1;
+                match y {
+                    // rendering of results and errors is part of what jaq does with them
+                    Ok(v) => drop(v.to_string()),
+                    Err(e) => {
+                        if let Ok(e) = e.get_err() {
+                            drop(e.to_string());
+                        }
+                        break;
+                    }
+                }
+            }
+            n
+        }));
+        if let Err(pn) = r {
+            let msg = pn
+                .downcast_ref::<String>()
+                .cloned()
+                .or_else(|| pn.downcast_ref::<&str>().map(|s| s.to_string()))
+                .unwrap_or_default();
+            let mut o = out.lock();
+            writeln!(o, "p {t} {}", msg.replace('\n', " ")).unwrap();
+            o.flush().unwrap();
+        }
+    }
+    writeln!(out.lock(), "done {total}").unwrap();
+    Ok(())
+}
+
 fn dispatch(cmd: &str, args: &[Sx]) -> Result<Sx, String> {
     match cmd {
         "run" => cmd_run(args),
@@ -202,6 +405,8 @@ fn dispatch(cmd: &str, args: &[Sx]) -> Result<Sx, String> {
         "lut" => cmd_lut(args),
         "natives" => cmd_natives(),
         "tokens" => cmd_tokens(args),
+        "diag" => cmd_diag(args),
+        "decode" => cmd_decode(args),
         _ => Err(format!("unknown command {cmd}")),
     }
 }
@@ -210,6 +415,12 @@ fn main() {
     // silence panic messages; panics are outcomes
     std::panic::set_hook(Box::new(|_| {}));
     let _ = Compiler::<&str, DataKind>::default();
+    if std::env::args().nth(1).as_deref() == Some("--sweep") {
+        if let Err(e) = sweep() {
+            println!("sweep-error {e}");
+        }
+        return;
+    }
     let stdin = std::io::stdin();
     let stdout = std::io::stdout();
     for line in stdin.lock().lines() {
